@@ -447,4 +447,29 @@ def _init_false_fields(ctx):
             ctx.violation("dump-differs:dataclass:inherited-init-false-field", f"{hint!r}: dump gave {out!r:.250}, the substituted types give {expected!r}", {"source": source})
 
 
-DIRECTED = {"generic-namedtuple-one-parameter": _directed, "initvar-of-type-variable": _initvar, "inherited-init-false-fields": _init_false_fields}
+def _pydantic_one_parameter(ctx):
+    """A generic pydantic model with exactly ONE type parameter is a model like the one with two (defect #68: BaseModel defines __iter__)."""
+    mod = types.ModuleType(f"vlib_c16_pd{next(_n)}")
+    sys.modules[mod.__name__] = mod
+    source = ("from typing import Generic, TypeVar, List\nfrom dataclasses import dataclass\nfrom pydantic import BaseModel\nT = TypeVar('T')\nV = TypeVar('V')\n"
+              "class PG(BaseModel, Generic[T]):\n    x: T\nclass PG2(BaseModel, Generic[T, V]):\n    x: T\n    y: V\n"
+              "@dataclass\nclass Holder(Generic[T]):\n    p: PG[T]\n    ps: List[PG[T]]\n")
+    exec(compile(source, f"<{mod.__name__}>", "exec", dont_inherit=True), mod.__dict__)  # noqa: S102
+    cases = [(mod.PG[int], {"x": 1}, {"x": "s"}), (mod.PG2[int, str], {"x": 1, "y": "s"}, {"x": 1, "y": 2}), (mod.Holder[int], {"p": {"x": 1}, "ps": [{"x": 2}]}, None)]     # PG[T] inside another generic: 'MyModel[T] -> Any' is pydantic's documented limitation
+    for hint, good_d, bad_d in cases:
+        ok_ = attempt(Retort().load, good_d, hint)
+        ko_ = attempt(Retort().load, bad_d, hint) if bad_d is not None else ok_.__class__("load_error")
+        ctx.evaluated(("directed-pydantic", repr(hint)))
+        ctx.count("conforming_loads")
+        ctx.count("nonconforming_loads")
+        if ok_.kind != "ok":
+            ctx.violation("conforming-data-rejected:pydantic:one-parameter", f"{hint!r}: {good_d!r} -> {ok_!r:.250}", {"source": source})
+            continue
+        if ko_.kind == "ok":
+            ctx.violation("other-substitution-accepted:pydantic:one-parameter", f"{hint!r}: {bad_d!r} accepted as {ko_.value!r}", {"source": source})
+        d = attempt(Retort().dump, ok_.value, hint)
+        if d.kind != "ok" or not _dump_eq(d.value, good_d):
+            ctx.violation("dump-differs:pydantic:one-parameter", f"{hint!r}: dump {d!r:.200}, expected {good_d!r}", {"source": source})
+
+
+DIRECTED = {"pydantic-one-parameter": _pydantic_one_parameter, "generic-namedtuple-one-parameter": _directed, "initvar-of-type-variable": _initvar, "inherited-init-false-fields": _init_false_fields}
